@@ -65,7 +65,7 @@ Print Assumptions C06_numbers_kept.
     ([pd_nr]) and Period@start = k*P: they tile wall-clock time. *)
 Theorem C06_tiles : forall pph seg mode cont ast snr st now ases ps,
   1 <= pph <= 3600 -> 0 < seg -> ast <= st <= now ->
-  splitPeriod false pph seg mode cont ast snr st now ases = Ok ps ->
+  splitPeriod false false pph seg mode cont ast snr st now ases = Ok ps ->
   let P := periodDurOf pph in
   let k0 := (st - ast) / (P * 1000) in
   let k1 := (now - ast) / (P * 1000) in
@@ -81,8 +81,8 @@ Print Assumptions C06_tiles.
     MPDs), a period's start is its number times P, so equal ids have equal starts and vice versa. *)
 Theorem C06_ids_stable : forall pph seg mode cont ast snr st1 now1 st2 now2 ases1 ases2 ps1 ps2 p1 p2,
   1 <= pph <= 3600 -> 0 < seg -> ast <= st1 -> ast <= now1 -> ast <= st2 -> ast <= now2 ->
-  splitPeriod false pph seg mode cont ast snr st1 now1 ases1 = Ok ps1 ->
-  splitPeriod false pph seg mode cont ast snr st2 now2 ases2 = Ok ps2 ->
+  splitPeriod false false pph seg mode cont ast snr st1 now1 ases1 = Ok ps1 ->
+  splitPeriod false false pph seg mode cont ast snr st2 now2 ases2 = Ok ps2 ->
   In p1 ps1 -> In p2 ps2 ->
   pd_start p1 = pd_nr p1 * periodDurOf pph /\
   (pd_nr p1 = pd_nr p2 <-> pd_start p1 = pd_start p2).
@@ -102,7 +102,7 @@ Print Assumptions C06_ids_stable.
     written next to an empty timeline. *)
 Theorem C06_partition : forall pph seg mode cont ast snr st now ases ps j a es,
   1 <= pph <= 3600 -> 0 < seg -> ast <= st <= now ->
-  splitPeriod false pph seg mode cont ast snr st now ases = Ok ps ->
+  splitPeriod false false pph seg mode cont ast snr st now ases = Ok ps ->
   nth_error ases j = Some a -> templateType mode a <> MNumber -> a_tl a = Some es ->
   let P := periodDurOf pph in
   let k0 := (st - ast) / (P * 1000) in
@@ -132,7 +132,7 @@ Print Assumptions C06_partition_open.
     period: the one containing its start. *)
 Theorem C06_exactly_one : forall pph seg mode cont ast snr st now ases ps j a es,
   1 <= pph <= 3600 -> 0 < seg -> ast <= st <= now ->
-  splitPeriod false pph seg mode cont ast snr st now ases = Ok ps ->
+  splitPeriod false false pph seg mode cont ast snr st now ases = Ok ps ->
   nth_error ases j = Some a -> templateType mode a <> MNumber -> a_tl a = Some es ->
   let P := periodDurOf pph in
   let k0 := (st - ast) / (P * 1000) in
@@ -158,7 +158,7 @@ Print Assumptions C06_exactly_one.
     mode, P1 does not exist yet and P0 ends at 60 s (finding c06-ato-segment-beyond-last-period) ... *)
 Theorem C06_late_segment_before_fix :
   existsb (fun x => fst x =? 5400000) (expandP atoTL) = true /\
-  splitPeriod false 60 2000 MTimelineTime false 0 0 0 59000
+  splitPeriod false false 60 2000 MTimelineTime false 0 0 0 59000
     [ {| a_image := false; a_ts := Some 90000; a_dur := None; a_startNr := None; a_tl := Some atoTL |} ] =
   Ok [ {| pd_nr := 0; pd_start := 0;
           pd_as := [ {| o_pto := 0; o_startNr := None; o_tl := Some [ {| p_t := Some 0; p_d := 180000; p_r := 29 |} ]; o_cont := false |} ] |} ].
@@ -170,20 +170,20 @@ Print Assumptions C06_late_segment_before_fix.
     a time-shift buffer shorter than a segment nothing at all is listed: tsbd_1, 6 s segments,
     periods_30, now = 121 s - finding c06-listed-segment-before-first-period). *)
 Theorem C06_early_segment_before_fix :
-  splitPeriod false 30 6000 MTimelineTime false 0 0 120000 121000 [earlyAS] =
+  splitPeriod false false 30 6000 MTimelineTime false 0 0 120000 121000 [earlyAS] =
   Ok [ {| pd_nr := 1; pd_start := 120; pd_as := [ {| o_pto := 10800000; o_startNr := None; o_tl := Some []; o_cont := false |} ] |} ].
 Proof. exact early_segment_before_fix. Qed.
 Print Assumptions C06_early_segment_before_fix.
 
 (** WITH the repair both segments have their period ... *)
 Theorem C06_late_early_segment_after_fix :
-  splitPeriod true 60 2000 MTimelineTime false 0 0 0 59000
+  splitPeriod false true 60 2000 MTimelineTime false 0 0 0 59000
     [ {| a_image := false; a_ts := Some 90000; a_dur := None; a_startNr := None; a_tl := Some atoTL |} ] =
   Ok [ {| pd_nr := 0; pd_start := 0;
           pd_as := [ {| o_pto := 0; o_startNr := None; o_tl := Some [ {| p_t := Some 0; p_d := 180000; p_r := 29 |} ]; o_cont := false |} ] |};
        {| pd_nr := 1; pd_start := 60;
           pd_as := [ {| o_pto := 5400000; o_startNr := None; o_tl := Some [ {| p_t := Some 5400000; p_d := 180000; p_r := 0 |} ]; o_cont := false |} ] |} ] /\
-  splitPeriod true 30 6000 MTimelineTime false 0 0 120000 121000 [earlyAS] =
+  splitPeriod false true 30 6000 MTimelineTime false 0 0 120000 121000 [earlyAS] =
   Ok [ {| pd_nr := 0; pd_start := 0;
           pd_as := [ {| o_pto := 0; o_startNr := None; o_tl := Some [ {| p_t := Some 10260000; p_d := 540000; p_r := 0 |} ]; o_cont := false |} ] |};
        {| pd_nr := 1; pd_start := 120; pd_as := [ {| o_pto := 10800000; o_startNr := None; o_tl := Some []; o_cont := false |} ] |} ].
@@ -199,7 +199,7 @@ Print Assumptions C06_late_early_segment_after_fix.
     AdaptationSet a sane timescale and times below 2^63 (no wrap in first/periodTicks). *)
 Theorem C06_partition_full : forall pph seg mode cont ast snr st now ases ps j a s0 rest t0 HI,
   1 <= pph <= 3600 -> 0 < seg -> ast <= st <= now -> mode <> MNumber ->
-  splitPeriod true pph seg mode cont ast snr st now ases = Ok ps ->
+  splitPeriod false true pph seg mode cont ast snr st now ases = Ok ps ->
   nth_error ases j = Some a -> a_image a = false -> a_tl a = Some (s0 :: rest) -> p_t s0 = Some t0 ->
   Forall (fun s => 0 <= p_r s < two32) (s0 :: rest) ->
   let es := s0 :: rest in
@@ -233,13 +233,25 @@ Print Assumptions C06_widened_range.
 (** Constant duration d with d | P*ts: period k (counted from availabilityStartTime) gets
     startNumber snr + k*P*ts/d and presentationTimeOffset k*P*ts = (startNumber - snr)*d. *)
 Theorem C06_number_mode : forall mode cont snr k P a o d,
-  templateType mode a = MNumber -> splitAS mode cont snr k P a = Ok o -> a_dur a = Some d ->
+  templateType mode a = MNumber -> splitAS false mode cont snr k P a = Ok o -> a_dur a = Some d ->
   0 <= k -> 0 < P -> 0 < tsOf a -> 0 < d -> (P * tsOf a) mod d = 0 -> 0 <= snr ->
   k * P * tsOf a < two64 -> k * (P * tsOf a / d) + snr < two32 ->
   exists n, o_startNr o = Some n /\ n = snr + k * (P * tsOf a / d) /\ (n - snr) * d = k * P * tsOf a /\
             o_pto o = k * P * tsOf a.
 Proof. exact number_mode_aligned. Qed.
 Print Assumptions C06_number_mode.
+
+(** With the repair "guard per adaptation set" ([splitAS true]) the code itself establishes that
+    alignment for every $Number$ template - also for adaptation sets whose segment duration differs
+    from the reference representation's - and returns the typed error (400) otherwise.  Without
+    it ([splitAS false]) only the asset-wide guard of [C06_reject] exists: finding
+    c06-number-mode-guard-only-reference-duration. *)
+Theorem C06_number_guard : forall mode cont snr k P a d,
+  templateType mode a = MNumber -> a_dur a = Some d -> 0 < d -> 0 <= P * tsOf a ->
+  (forall o, splitAS true mode cont snr k P a = Ok o -> (P * tsOf a) mod d = 0) /\
+  ((P * tsOf a) mod d <> 0 -> splitAS true mode cont snr k P a = Err rejectMsg).
+Proof. exact splitAS_guard. Qed.
+Print Assumptions C06_number_guard.
 
 (** ... which is the number C01 gives the segment starting at k*P: in a constant-duration
     representation segment n of the looped timeline starts at n*d. *)
@@ -257,7 +269,7 @@ Print Assumptions C06_guard_aligned.
 (** start_1000 and snr_5 (commits 961c9dc, bde286d): periods are counted from
     availabilityStartTime and numbers are offset by the start number. *)
 Theorem C06_snr_start_example :
-  splitPeriod false 60 2000 MNumber false 1000000 5 1060500 1120500
+  splitPeriod false false 60 2000 MNumber false 1000000 5 1060500 1120500
     [ {| a_image := false; a_ts := None; a_dur := Some 2; a_startNr := Some 5; a_tl := None |} ] =
   Ok [ {| pd_nr := 1; pd_start := 60; pd_as := [ {| o_pto := 60; o_startNr := Some 35; o_tl := None; o_cont := false |} ] |};
        {| pd_nr := 2; pd_start := 120; pd_as := [ {| o_pto := 120; o_startNr := Some 65; o_tl := None; o_cont := false |} ] |} ].
@@ -267,7 +279,7 @@ Print Assumptions C06_snr_start_example.
 (** publishTime in multi-period $Number$ mode = availabilityStartTime + start of the last period. *)
 Theorem C06_publish_number : forall w loopMS c now tsbdMS pph seg cont ases ps pt,
   1 <= pph <= 3600 -> 0 < seg -> startS c * 1000 <= now -> 0 <= tsbdMS ->
-  livePeriods w loopMS c now tsbdMS pph seg MNumber cont ases = Ok (ps, pt) ->
+  livePeriods false w loopMS c now tsbdMS pph seg MNumber cont ases = Ok (ps, pt) ->
   pt = Some (startS c + (now - startS c * 1000) / (periodDurOf pph * 1000) * periodDurOf pph).
 Proof. exact livePeriods_publish. Qed.
 Print Assumptions C06_publish_number.
@@ -277,19 +289,19 @@ Print Assumptions C06_publish_number.
 (** From the stop time on (stop_/stoprel_) the multi-period result no longer depends on the
     instant of the request and is the split of the MPD of the stop instant; before it the stop time
     has no influence.  (The MPD is made static after the split, never instead of it.) *)
-Theorem C06_stop_frozen : forall w loopMS c now1 now2 s tsbdMS pph seg mode cont ases,
+Theorem C06_stop_frozen : forall g w loopMS c now1 now2 s tsbdMS pph seg mode cont ases,
   s * 1000 <= now1 -> s * 1000 <= now2 ->
-  livePeriodsStop w loopMS c now1 (Some s) tsbdMS pph seg mode cont ases =
-  livePeriodsStop w loopMS c now2 (Some s) tsbdMS pph seg mode cont ases /\
-  livePeriodsStop w loopMS c now1 (Some s) tsbdMS pph seg mode cont ases =
-  livePeriods w loopMS c (s * 1000) tsbdMS pph seg mode cont ases.
+  livePeriodsStop g w loopMS c now1 (Some s) tsbdMS pph seg mode cont ases =
+  livePeriodsStop g w loopMS c now2 (Some s) tsbdMS pph seg mode cont ases /\
+  livePeriodsStop g w loopMS c now1 (Some s) tsbdMS pph seg mode cont ases =
+  livePeriods g w loopMS c (s * 1000) tsbdMS pph seg mode cont ases.
 Proof. exact stop_frozen. Qed.
 Print Assumptions C06_stop_frozen.
 
-Theorem C06_stop_before : forall w loopMS c now s tsbdMS pph seg mode cont ases,
+Theorem C06_stop_before : forall g w loopMS c now s tsbdMS pph seg mode cont ases,
   now <= s * 1000 ->
-  livePeriodsStop w loopMS c now (Some s) tsbdMS pph seg mode cont ases =
-  livePeriods w loopMS c now tsbdMS pph seg mode cont ases.
+  livePeriodsStop g w loopMS c now (Some s) tsbdMS pph seg mode cont ases =
+  livePeriods g w loopMS c now tsbdMS pph seg mode cont ases.
 Proof. exact stop_before. Qed.
 Print Assumptions C06_stop_before.
 
@@ -301,7 +313,7 @@ Print Assumptions C06_stop_before.
 Theorem C06_reject : forall w pph seg mode cont ast snr st now ases,
   1 <= pph <= 3600 -> 0 < seg ->
   ((periodDurOf pph * 1000) mod seg <> 0 <->
-   exists e, splitPeriod w pph seg mode cont ast snr st now ases = Err e).
+   exists e, splitPeriod false w pph seg mode cont ast snr st now ases = Err e).
 Proof. exact splitPeriod_reject. Qed.
 Print Assumptions C06_reject.
 
@@ -311,13 +323,13 @@ Print Assumptions C06_reject.
     2.002 s of that asset every periods-per-hour value is rejected: no whole number of seconds
     3600/n is a multiple of 2.002 s. *)
 Theorem C06_reject_2997 : forall w pph mode cont ast snr st now ases,
-  1 <= pph <= 3600 -> exists e, splitPeriod w pph 2002 mode cont ast snr st now ases = Err e.
+  1 <= pph <= 3600 -> exists e, splitPeriod false w pph 2002 mode cont ast snr st now ases = Err e.
 Proof. exact reject_2997. Qed.
 Print Assumptions C06_reject_2997.
 
 (** Continuity is signalled in every AdaptationSet of every period iff requested. *)
 Theorem C06_continuity : forall mode cont snr k P a o,
-  splitAS mode cont snr k P a = Ok o -> o_pto o = u64 (k * P * tsOf a) /\ o_cont o = cont.
+  splitAS false mode cont snr k P a = Ok o -> o_pto o = u64 (k * P * tsOf a) /\ o_cont o = cont.
 Proof. exact splitAS_common. Qed.
 Print Assumptions C06_continuity.
 
@@ -327,7 +339,7 @@ Print Assumptions C06_continuity.
 Theorem C06_accepted_total : forall pph seg mode cont ast snr st now ases,
   1 <= pph <= 3600 -> 0 < seg -> (periodDurOf pph * 1000) mod seg = 0 -> ast <= st <= now ->
   Forall (wellShaped mode) ases ->
-  exists ps, splitPeriod false pph seg mode cont ast snr st now ases = Ok ps.
+  exists ps, splitPeriod false false pph seg mode cont ast snr st now ases = Ok ps.
 Proof. exact splitPeriod_total. Qed.
 Print Assumptions C06_accepted_total.
 
@@ -335,7 +347,7 @@ Print Assumptions C06_accepted_total.
     HTTP 400) before splitPeriod is reached ... *)
 Theorem C06_pph_range : forall w loopMS c now tsbdMS pph seg mode cont ases,
   pph <= 0 \/ 3600 < pph ->
-  livePeriods w loopMS c now tsbdMS pph seg mode cont ases = Err pphRangeMsg.
+  livePeriods false w loopMS c now tsbdMS pph seg mode cont ases = Err pphRangeMsg.
 Proof. exact livePeriods_pph_range. Qed.
 Print Assumptions C06_pph_range.
 
@@ -344,9 +356,9 @@ Print Assumptions C06_pph_range.
     still exercised directly by the correspondence through the hook). *)
 Theorem C06_pph_guard_needed :
   (forall w seg mode cont ast snr st now ases,
-     splitPeriod w 0 seg mode cont ast snr st now ases = Panic "splitPeriod: integer divide by zero") /\
+     splitPeriod false w 0 seg mode cont ast snr st now ases = Panic "splitPeriod: integer divide by zero") /\
   (forall w pph seg mode cont ast snr st now ases, 3600 < pph ->
-     splitPeriod w pph seg mode cont ast snr st now ases = Panic "splitPeriod: integer divide by zero").
+     splitPeriod false w pph seg mode cont ast snr st now ases = Panic "splitPeriod: integer divide by zero").
 Proof. exact (conj splitPeriod_pph_zero splitPeriod_pph_big). Qed.
 Print Assumptions C06_pph_guard_needed.
 
@@ -355,7 +367,7 @@ Print Assumptions C06_pph_guard_needed.
     periods are P0 (38 s .. 60 s) and P1 (60 s .. 100 s). *)
 Example C06_example :
   goodTL exTL (Some 19) 90000 120 /\
-  splitPeriod false 60 2000 MTimelineNr true 0 0 40000 100000 [exAS] =
+  splitPeriod false false 60 2000 MTimelineNr true 0 0 40000 100000 [exAS] =
   Ok [ {| pd_nr := 0; pd_start := 0;
           pd_as := [ {| o_pto := 0; o_startNr := Some 19;
                         o_tl := Some [ {| p_t := Some 3420000; p_d := 180000; p_r := 10 |} ]; o_cont := true |} ] |};
